@@ -4,10 +4,13 @@
 ;; (an out-of-stack error leaves the VM loop and reaches chibi's top level: reported there, exit status 70)
 (import (scheme base) (scheme write) (scheme read) (scheme eval) (scheme char) (scheme cxr)
         (only (srfi 69) hash)
-        (rename (only (chibi) equal? make-syntactic-closure current-environment) (equal? c-equal?)))
+        (rename (only (chibi) equal? read make-syntactic-closure current-environment) (equal? c-equal?) (read c-read)))
 
 ;; nesting through the car: ((((... leaf ...))))
 (define (nest-car n leaf) (let lp ((i 0) (x leaf)) (if (= i n) x (lp (+ i 1) (list x)))))
+;; through the car, with a cdr that is a fresh string: equal? cannot take its tail-call shortcut (sexp_equalp_bound
+;; loops on the LAST differing slot and recurses on the others)
+(define (nest-carstr n leaf) (let lp ((i 0) (x leaf)) (if (= i n) x (lp (+ i 1) (cons x (string #\a))))))
 ;; through the second element (the printer's cdr loop): (0 (0 (0 ... leaf)))
 (define (nest-cadr n leaf) (let lp ((i 0) (x leaf)) (if (= i n) x (lp (+ i 1) (list 0 x)))))
 ;; through a dotted non-pair tail: (0 . #((0 . #( ... leaf))))
@@ -26,6 +29,7 @@
 ;; long lists: proper, improper
 (define (long-list n) (make-list n 1))
 (define (long-improper n) (let lp ((i 0) (x 1)) (if (= i n) x (lp (+ i 1) (cons 0 x)))))
+;; (scheme read)'s read is the Scheme-level SRFI 38 reader; c-read is the C reader sexp_read (also used by load)
 ;; cycles
 (define (cycle-car) (let ((x (list 1 2))) (set-car! x x) x))
 (define (cycle-cdr) (let ((x (list 1 2 3))) (set-cdr! (cddr x) x) x))
@@ -56,3 +60,15 @@
           (else (write-string "V ") (write-simple (car r))))
     (newline)
     (flush-output-port)))
+
+;; printer truncation (compared with the extracted model run on the regenerated call-site table):
+;; number of opening parentheses written and whether "..." was written
+(define (trunc-info f x)
+  (let ((p (open-output-string)))
+    (f x p)
+    (let lp ((ls (string->list (get-output-string p))) (opens 0) (dots #f))
+      (cond ((null? ls) (list opens dots))
+            ((char=? (car ls) #\() (lp (cdr ls) (+ opens 1) dots))
+            ((and (char=? (car ls) #\.) (pair? (cdr ls)) (char=? (cadr ls) #\.) (pair? (cddr ls)) (char=? (caddr ls) #\.))
+             (lp (cdddr ls) opens #t))
+            (else (lp (cdr ls) opens dots))))))
